@@ -51,7 +51,7 @@ func c04Appended(rt *rapid.T, i int) (hlref.Tran, string) {
 func c04prop(ev *evid.Rec) func(rt *rapid.T) {
 	return func(rt *rapid.T) {
 		// ---- account database
-		pool := []string{"alice", "bob", "Carol", "dave x", "ali"}
+		pool := []string{"alice", "bob", "Carol", "dave x", "ali", ".ops", "a.b", "x.yaml", "-dash", "~t", "#h"} // any legal file name is a login
 		nacc := rapid.IntRange(0, 3).Draw(rt, "naccounts")
 		logins := rapid.Permutation(pool).Draw(rt, "logins")[:nacc]
 		withGuest := rapid.Bool().Draw(rt, "withGuest")
